@@ -17,6 +17,7 @@ import (
 	"net/http"
 	"net/textproto"
 	"os"
+	"runtime"
 	"runtime/debug"
 	"sort"
 	"strconv"
@@ -71,6 +72,21 @@ type Case struct {
 	Conc     [][]Op `json:"conc,omitempty"`
 	ConcSeed uint64 `json:"conc_seed,omitempty"`
 	MissPct  int    `json:"miss_pct,omitempty"` // percentage of cache lookups answered "miss" (entry lost)
+	// forced shared single-flight fetch (oracle only): see SharedSpec
+	Shared *SharedSpec `json:"shared,omitempty"`
+}
+
+// SharedSpec: a leader and a follower (ReadAt or Cache) miss the same chunks; the leader's request is held in the
+// transport until the follower is parked in singleflight.Do; optionally every cache lookup after that misses (the
+// fetched chunks are evicted between the leader's commit and the follower's copy), so the follower refetches; the
+// registry answers the requests after the first with Script.
+type SharedSpec struct {
+	Caller string `json:"caller"` // read | cache : what the follower calls (the leader reads)
+	Off    int64  `json:"off"`
+	N      int64  `json:"n"`
+	Evict  bool   `json:"evict,omitempty"`
+	Script []Pers `json:"script,omitempty"` // answers to the requests after the leader's (the follower's refetch)
+	Fails  bool   `json:"fails,omitempty"`  // the refetch is scripted to fail: the follower must report an error
 }
 
 func blobBytes(size int) []byte {
@@ -96,6 +112,11 @@ type server struct {
 	reqs     []string // Coq req terms of the current op
 	kinds    []string // personalities actually applied (for the distribution)
 	rangeErr bool     // a Range header the server could not parse (never expected)
+
+	// forced shared fetch: the next data request signals inFlight and waits for release
+	holdArmed bool
+	inFlight  chan struct{}
+	release   chan struct{}
 
 	// concurrent mode: requests are serialised by mu, personalities are drawn from rng
 	conc  bool
@@ -340,6 +361,11 @@ func (s *server) roundTrip(req *http.Request) (*http.Response, error) {
 		return resp(416, nil, nil, req), nil
 	}
 	s.reqs = append(s.reqs, "QData "+coqRegs(ranges))
+	if s.holdArmed {
+		s.holdArmed = false
+		close(s.inFlight)
+		<-s.release
+	}
 	if stale {
 		s.served = append(s.served, "R403")
 		s.kinds = append(s.kinds, "stale403")
@@ -579,6 +605,7 @@ type recCache struct {
 	rng     *hx.Rng
 	missPct int
 	misses  int
+	missAll bool       // every lookup misses (everything was evicted)
 	park    *parkState // armed: the next lookup, if it hits, returns a reader that parks before its first ReadAt
 }
 
@@ -625,6 +652,12 @@ func (c *recCache) Add(key string, opts ...cache.Option) (cache.Writer, error) {
 	return &recWriter{Writer: w, c: c, key: key}, nil
 }
 func (c *recCache) Get(key string, opts ...cache.Option) (cache.Reader, error) {
+	c.mu.Lock()
+	all := c.missAll
+	c.mu.Unlock()
+	if all {
+		return nil, fmt.Errorf("missed cache (scripted eviction)")
+	}
 	if c.missPct > 0 {
 		c.mu.Lock()
 		miss := c.rng.Intn(100) < c.missPct
@@ -783,6 +816,7 @@ type execResult struct {
 	concOK, concReqs, concMaxInflight, concMisses int
 	concCloseErr                                  bool
 	parkedReads                                   int
+	sharedJoined, sharedRefetchErr                bool
 }
 
 func run(c Case) execResult {
@@ -1057,6 +1091,104 @@ func run(c Case) execResult {
 	}
 	if pk != nil {
 		resume()
+	}
+	if sp := c.Shared; sp != nil {
+		// ---- forced shared single-flight fetch (oracle only) ----
+		srv.phase = "data"
+		srv.script = nil
+		srv.served, srv.reqs, srv.kinds = nil, nil, nil
+		srv.inFlight, srv.release = make(chan struct{}), make(chan struct{})
+		srv.holdArmed = true
+		check := func(who string, p []byte, n int, err error) {
+			if err != nil {
+				return
+			}
+			want := int64(0)
+			if sp.Off <= size {
+				want = size - sp.Off
+				if want > sp.N {
+					want = sp.N
+				}
+			}
+			if int64(n) != want {
+				bad("shared fetch: %s ReadAt(off=%d,len=%d) returned n=%d, want %d", who, sp.Off, sp.N, n, want)
+			} else if n > 0 && !bytes.Equal(p[:n], blob[sp.Off:sp.Off+int64(n)]) {
+				bad("shared fetch: %s ReadAt(off=%d,len=%d) returned bytes that differ from blob[%d:%d]", who, sp.Off, sp.N, sp.Off, sp.Off+int64(n))
+			}
+		}
+		guard := func(who string, f func()) {
+			defer func() {
+				if r := recover(); r != nil {
+					bad("shared fetch: %s panicked: %v", who, r)
+				}
+			}()
+			f()
+		}
+		ldone, fdone := make(chan struct{}), make(chan struct{})
+		go func() {
+			defer close(ldone)
+			guard("leader", func() {
+				p := bytes.Repeat([]byte{0xEE}, int(sp.N))
+				n, err := b.ReadAt(p, sp.Off)
+				check("leader", p, n, err)
+			})
+		}()
+		var ferr error
+		started := false
+		select {
+		case <-srv.inFlight:
+			started = true
+		case <-ldone: // nothing to fetch: no shared fetch in this case
+		}
+		if started {
+			go func() {
+				defer close(fdone)
+				guard("follower", func() {
+					if sp.Caller == "cache" {
+						ferr = b.Cache(sp.Off, sp.N)
+						return
+					}
+					p := bytes.Repeat([]byte{0xEE}, int(sp.N))
+					n, err := b.ReadAt(p, sp.Off)
+					ferr = err
+					check("follower", p, n, err)
+				})
+			}()
+			// wait until the follower is parked in singleflight.Group.Do on the leader's call
+			deadline := time.Now().Add(5 * time.Second)
+			buf := make([]byte, 1<<20)
+			for !res.sharedJoined && time.Now().Before(deadline) {
+				for _, g := range strings.Split(string(buf[:runtime.Stack(buf, true)]), "\n\n") {
+					if strings.Contains(g, "singleflight.(*Group).Do(") && strings.Contains(g, "sync.(*WaitGroup).Wait(") {
+						res.sharedJoined = true
+					}
+				}
+				if !res.sharedJoined {
+					time.Sleep(200 * time.Microsecond)
+				}
+			}
+			if sp.Evict {
+				rc.mu.Lock()
+				rc.missAll = true
+				rc.mu.Unlock()
+			}
+			// the held request of the leader is answered well; the script is for what the follower sends afterwards
+			srv.script = append([]Pers{{K: "multi"}}, sp.Script...)
+			close(srv.release)
+			<-ldone
+			<-fdone
+			rc.mu.Lock()
+			rc.missAll = false
+			rc.mu.Unlock()
+			res.sharedRefetchErr = ferr != nil
+			if res.sharedJoined && sp.Evict && sp.Fails && ferr == nil {
+				bad("shared fetch: the follower's %s reported success although its copy from the cache missed and its refetch failed (error swallowed)", sp.Caller)
+			}
+		}
+		srv.holdArmed = false
+		if fs := b.FetchedSize(); fs > size {
+			bad("FetchedSize %d exceeds the blob size %d", fs, size)
+		}
 	}
 	if len(c.Conc) > 0 {
 		// ---- concurrent part (oracle only): readers and prefetchers at the same time, shared single-flight
@@ -1468,6 +1600,42 @@ func genConc(r *hx.Rng) Case {
 	return c
 }
 
+// sharedCorpus: shared single-flight fetch x eviction between the leader's commit and the follower's copy x outcome of
+// the follower's refetch, for ReadAt and Cache followers.
+func sharedCorpus() []Case {
+	var cs []Case
+	type rf struct {
+		script []Pers
+		fails  bool
+	}
+	refetch := []rf{
+		{[]Pers{{K: "multi"}}, false},
+		{[]Pers{{K: "conn"}}, true},
+		{[]Pers{{K: "trunc"}}, true},
+		{[]Pers{{K: "500"}}, true},
+		{[]Pers{{K: "400"}, {K: "400"}}, true},
+		{[]Pers{{K: "403"}, {K: "rfail"}}, true},
+		{[]Pers{{K: "403"}, {K: "rok"}, {K: "squash"}}, false},
+		{[]Pers{{K: "broken"}}, true},
+	}
+	for _, caller := range []string{"read", "cache"} {
+		for i, r := range refetch {
+			c := Case{Size: 16, CS: 4, Cache: "mem", Shared: &SharedSpec{Caller: caller, Off: 4, N: 4, Evict: true, Script: r.script, Fails: r.fails}}
+			if i%2 == 1 {
+				c.Size, c.Shared.Off, c.Shared.N = 18, 3, 9 // several chunks, multi-range request
+				c.Ops = []Op{{Op: "read", Off: 4, N: 4}}
+			}
+			if i == 3 {
+				c.Cache = "dir"
+			}
+			cs = append(cs, c)
+		}
+		// no eviction: the follower copies out of the cache
+		cs = append(cs, Case{Size: 16, CS: 4, Cache: "mem", Shared: &SharedSpec{Caller: caller, Off: 5, N: 7}})
+	}
+	return cs
+}
+
 func corpus() []Case {
 	rd := func(off, n int64, ks ...string) Op {
 		o := Op{Op: "read", Off: off, N: n}
@@ -1581,6 +1749,22 @@ func main() {
 		term := coqCase(c, res.ops, res.outs)
 		key := term
 		nontrivial := fetches > 0 && okReads > 0
+		if c.Shared != nil {
+			ctx.Count("shared.cases")
+			if res.sharedJoined {
+				ctx.Count("shared.joined")
+				ctx.Count("shared.follower." + c.Shared.Caller)
+				if c.Shared.Evict {
+					ctx.Count("shared.evicted_before_copy")
+				}
+				if res.sharedRefetchErr {
+					ctx.Count("shared.follower_error")
+				}
+			}
+			b, _ := json.Marshal(c)
+			key = string(b)
+			nontrivial = res.sharedJoined
+		}
 		if len(c.Conc) > 0 {
 			// the concurrent part is checked by the oracle only; the Coq term is the sequential prefix
 			ctx.Count("conc.cases")
@@ -1615,7 +1799,7 @@ func main() {
 		ctx.Finish()
 		return
 	}
-	cp := corpus()
+	cp := append(corpus(), sharedCorpus()...)
 	for _, c := range cp {
 		emit(c)
 	}
